@@ -9,38 +9,79 @@ component, field by field as in `window.rs`, `sase.rs`, `join.rs`, `watermark.rs
 "Invisible" = for **all** continuations the outputs are equal (`runOps`), which follows from
 `restore (decode (encode (checkpoint s))) = s`.
 
-Unconditional for all ten window operators, the join buffer, distinct, limit, variables,
-watermarks (structural invariants of hash maps and heaps are premises; they hold of every
-reachable state).  For pattern runs the statement is `…_partial`: it needs `Run.Restorable`
-(no pending negation, no deferred Kleene predicate) — see `kleene_deferred_counterexample`.
+Three losses are **not** repaired and appear as explicit guards (`…_partial`) with
+`…_counterexample` theorems for the excluded cases:
+* `C20-submillisecond-event-timestamps`: every buffered event comes back with its timestamp cut to
+  the millisecond (and the plain time windows their start / last-emit time) — guard `Event.whole`;
+* `C19-sliding-count-counter-reset`: a plain sliding count window comes back with its slide
+  counter at 0 — guard `since = 0` (the partitioned form keeps the counter);
+* `C19-kleene-deferred`: a run with a deferred Kleene predicate — guard `Run.Restorable`.
+Under the guards: all ten window operators with their real step functions, the join buffer,
+distinct, limit, variables, watermarks, composed into the engine-level statement (structural
+invariants of hash maps and heaps are premises; they hold of every reachable state).
 -/
 namespace Varpulis.Props.C19
 open Varpulis.Ckpt Varpulis.Ckpt.Witness
 
-/-! ## windows: all ten operators, every continuation -/
+/-! ## windows: all ten operators, every continuation
 
-/-- a window checkpoint survives the codec, and restoring it into the freshly loaded operator
-gives the checkpointed state back -/
-theorem window_restore (w : WinSt) :
+Full-strength statement (false, see the two counterexamples):
+`∀ w, (decWC (wire (encWC w.ckpt))).map (WinSt.restore w.fresh) = some w`. -/
+
+/-- guarded: a window checkpoint survives the codec, and restoring it into the freshly loaded
+operator gives the checkpointed state back, provided no event in it has a sub-millisecond timestamp
+and — plain sliding count window only — the slide counter is 0 -/
+theorem window_restore_partial (w : WinSt) (h : w.Restorable = true) :
     (decWC (wire (encWC w.ckpt))).map (WinSt.restore w.fresh) = some w := by
-  rw [wire_clean _ (clean_encWC _), decWC_encWC]; simp [winSt_rt]
+  rw [wire_clean _ (clean_encWC _), decWC_encWC]; simp [winSt_rt w h]
 
-/-- C19 for the window operator of a stream — tumbling, sliding, count, sliding count, session and
-the five partitioned forms; events and watermark advances; any configuration, any partition-key
-function: the interrupted run emits exactly what the uninterrupted one emits, for every
-continuation `ops` -/
-theorem window_obs_equiv (c : WinCfg) (pk : Event → String) (w : WinSt) (ops : List WinOp) :
+/-- C19 for the window operator of a stream under that guard — tumbling, sliding, count, sliding
+count, session and the five partitioned forms; events and watermark advances; any configuration,
+any partition-key function: the interrupted run emits exactly what the uninterrupted one emits,
+for every continuation `ops` -/
+theorem window_obs_equiv_partial (c : WinCfg) (pk : Event → String) (w : WinSt) (h : w.Restorable = true)
+    (ops : List WinOp) :
     (decWC (wire (encWC w.ckpt))).map (fun cp => runOps (WinSt.step c pk) (WinSt.restore w.fresh cp) ops)
       = some (runOps (WinSt.step c pk) w ops) := by
-  have h := window_restore w
+  have h' := window_restore_partial w h
   cases hd : decWC (wire (encWC w.ckpt)) with
-  | none => simp [hd] at h
-  | some cp => simp only [hd, Option.map_some, Option.some.injEq] at h ⊢; rw [h]
+  | none => simp [hd] at h'
+  | some cp => simp only [hd, Option.map_some, Option.some.injEq] at h' ⊢; rw [h']
+
+/-- the partitioned sliding count window needs no guard on its counter: it is checkpointed
+(`PartitionedWindowCheckpoint::events_since_emit`) -/
+theorem partitioned_sliding_count_keeps_counter (w : SlidingCountSt) (h : w.buf.all Event.whole = true) :
+    (decPWC (wire (encPWC (slidingCountPwc w)))).map slidingCountOfPwc = some w := by
+  rw [wire_clean _ (clean_encPWC _), decPWC_encPWC]; simp [slidingCount_prt w h]
+
+/-- **counterexample** (finding `C19-sliding-count-counter-reset`): window(3, sliding: 2) holding
+two events, one of them counted since the last emission. The third event fills the window and is
+emitted by the uninterrupted window; the restored one has its counter at 0 and stays silent.
+(`window_coverage_tests::sliding_count_window_checkpoint_restore_resets_events_since_emit` pins
+this behaviour.) -/
+theorem sliding_count_counter_counterexample :
+    let w : SlidingCountSt := { buf := [ev 0, ev 1], since := 1 }
+    (WinSt.slidingCount w).Restorable = false ∧
+    ((w.add 3 2 (ev 2)).2).isSome = true ∧
+    (((SlidingCountSt.restore w.ckpt).add 3 2 (ev 2)).2).isSome = false := by
+  simp [WinSt.Restorable, SlidingCountSt.Whole, SlidingCountSt.add, SlidingCountSt.restore, SlidingCountSt.ckpt, emptyWC, ev]
+
+/-- **counterexample** (finding `C20-submillisecond-event-timestamps`, window part): a 1 s tumbling
+window opened at 1.5 ms; an event 999.8 ms later belongs to it, but `restore` has moved the start
+to 1 ms and closes the window -/
+theorem window_submillisecond_counterexample :
+    let w : TumblingSt := { buf := [{ etype := "T", ts := 1500000, data := [] }], start := some 1500000 }
+    let e : Event := { etype := "T", ts := 1001300000, data := [] }
+    (WinSt.tumbling w).Restorable = false ∧
+    ((w.add 1000000000 e).2).isSome = false ∧
+    (((TumblingSt.restore w.ckpt).add 1000000000 e).2).isSome = true := by
+  simp [WinSt.Restorable, TumblingSt.Whole, Event.whole, wholeTs, TumblingSt.add, TumblingSt.restore,
+    TumblingSt.ckpt, emptyWC, msOf, ofMs]
 
 /-! ## pattern runs (partial: see the counterexample below) -/
 
-/-- a SASE engine state whose runs carry no pending negation and no deferred Kleene predicate is
-restored equal up to the Kleene aliases, which nothing reads without a deferred predicate -/
+/-- a SASE engine state whose runs carry no pending negation, no deferred Kleene predicate and no
+sub-millisecond event is restored equal up to the Kleene aliases, which nothing reads without a deferred predicate -/
 theorem sase_restore_partial (s : SaseSt) (h : s.Restorable = true) :
     (decSase (wire (encSase s.ckpt))).map (fun c => (SaseSt.restore c).view) = some s.view := by
   rw [wire_clean _ (clean_encSase _), decSase_encSase]; simp [sase_view_rt s h]
@@ -65,10 +106,11 @@ theorem sase_obs_equiv_partial {ι ο} (step : SaseSt → ι → SaseSt × ο)
 /-! ## join buffer -/
 
 /-- buffers, expiry queue and last GC time come back exactly (`WF`: a buffered pair carries its
-event's own timestamp and the queue is a heap — invariants of `add_event`) -/
-theorem join_restore (c : JoinCfg) (windowNs : Int) (j : JoinSt) (h : j.WF) :
+event's own timestamp and the queue is a heap — invariants of `add_event`; `Whole`: no buffered
+event with a sub-millisecond timestamp) -/
+theorem join_restore_partial (c : JoinCfg) (windowNs : Int) (j : JoinSt) (h : j.WF) (hw : j.Whole) :
     (decJoin (wire (encJoin (j.ckpt c)))).map (JoinSt.restore windowNs) = some j := by
-  rw [wire_clean _ (clean_encJoin _), decJoin_encJoin]; simp [join_rt c windowNs j h]
+  rw [wire_clean _ (clean_encJoin _), decJoin_encJoin]; simp [join_rt c windowNs j h hw]
 
 /-! ## distinct, limit -/
 
@@ -87,10 +129,11 @@ theorem limit_obs_equiv (l : Nat × Nat) (batches : List Nat) :
 
 /-! ## the engine -/
 
-/-- C19, engine level: checkpoint → JSON → freshly loaded engine → restore yields a state that is
+/-- C19, engine level, under `EngineSt.Restorable` (the three guards above plus structural
+invariants): checkpoint → JSON → freshly loaded engine → restore yields a state that is
 `Equiv` to the checkpointed one: all window, join, distinct and limit states equal, pattern runs
 equal up to unread aliases, the same variables, counters and watermark state -/
-theorem engine_restore (cfg : String → StreamCfg) (s : EngineSt) (vars0 : List (String × Val))
+theorem engine_restore_partial (cfg : String → StreamCfg) (s : EngineSt) (vars0 : List (String × Val))
     (src0 : List (String × SrcWm)) (h : s.Restorable vars0 src0) :
     ∃ c, decEngine (wire (encEngine (s.ckpt cfg))) = some c ∧
       EngineSt.Equiv (EngineSt.restore cfg (s.fresh vars0 src0) c) s :=
@@ -107,28 +150,7 @@ theorem engine_obs_equiv {ι ο} (step : EngineSt → ι → EngineSt × ο)
     simp only [runOps, List.cons.injEq]
     exact ⟨(hstep a b i h).1, ih _ _ (hstep a b i h).2⟩
 
-/-! ## the losses: repaired (witnesses of the old behaviour) and not repaired (counterexample) -/
-
-/-- repaired by `fix: sliding count window lost its slide counter`: window(3, sliding: 2) holding
-two events with one of them counted since the last emission; the old `restore` reset the counter,
-so the third event fills the window but is not emitted -/
-theorem sliding_count_counter_defect :
-    let w : SlidingCountSt := { buf := [ev 0, ev 1], since := 1 }
-    ((w.add 3 2 (ev 2)).2).isSome = true ∧
-    (((SlidingCountSt.restoreOld w.ckpt).add 3 2 (ev 2)).2).isSome = false ∧
-    (((SlidingCountSt.restore w.ckpt).add 3 2 (ev 2)).2).isSome = true := by
-  simp [SlidingCountSt.add, SlidingCountSt.restoreOld, SlidingCountSt.restore, SlidingCountSt.ckpt, emptyWC, ev]
-
-/-- repaired by `fix: window start … truncated to milliseconds`: a 1 s tumbling window opened at
-1.5 ms; an event 999.8 ms later belongs to it, but the old `restore` had moved the start to 1 ms
-and closed the window -/
-theorem window_start_truncation_defect :
-    let w : TumblingSt := { buf := [{ etype := "T", ts := 1500000, data := [] }], start := some 1500000 }
-    let e : Event := { etype := "T", ts := 1001300000, data := [] }
-    ((w.add 1000000000 e).2).isSome = false ∧
-    (((TumblingSt.restoreOld w.ckpt).add 1000000000 e).2).isSome = true ∧
-    (((TumblingSt.restore w.ckpt).add 1000000000 e).2).isSome = false := by
-  simp [TumblingSt.add, TumblingSt.restoreOld, TumblingSt.restore, TumblingSt.ckpt, emptyWC, msOf, ofMs, subOf, joinTs]
+/-! ## further losses: repaired (witnesses of the old behaviour) and not repaired (counterexample) -/
 
 /-- repaired by `fix: progress inside an AND pattern state`: `A AND B` after `A`; the old
 `from_checkpoint` forgot the completed branch, so the next `A` was taken for branch 0 again -/
@@ -175,13 +197,16 @@ theorem pending_negation_state_loss :
 
 /-! ## non-vacuity -/
 
-/-- a partitioned sliding count window with sub-millisecond events is covered by `window_obs_equiv` -/
-example : ∃ w : WinSt, w = .pSlidingCount [("a", { buf := [{ etype := "T", ts := 1234567, data := [("x", .float .nan)] }], since := 1 })] ∧
-    (decWC (wire (encWC w.ckpt))).map (WinSt.restore w.fresh) = some w :=
-  ⟨_, rfl, window_restore _⟩
+/-- the guard of `window_obs_equiv_partial` holds of a partitioned sliding count window in the
+middle of a slide and of a plain one right after an emission -/
+example :
+    (WinSt.pSlidingCount [("a", { buf := [ev 1, ev 2], since := 1 })]).Restorable = true
+    ∧ (WinSt.slidingCount { buf := [ev 1, ev 2, ev 3], since := 0 }).Restorable = true
+    ∧ (WinSt.tumbling { buf := [ev 1], start := some 1000000000 }).Restorable = true := by
+  decide
 
 /-- the premise of `sase_restore_partial` holds of a run in the middle of `A -> all B -> C` -/
 example : ({ SaseSt.empty with runs := [midRun] } : SaseSt).Restorable = true := by
-  simp [SaseSt.Restorable, Run.Restorable, SaseSt.empty, midRun]
+  simp [SaseSt.Restorable, Run.Restorable, Run.Whole, Event.whole, wholeTs, SaseSt.empty, midRun, bEv]
 
 end Varpulis.Props.C19
